@@ -112,14 +112,14 @@ pub const ROUTES: &[Route] = &[
     r("POST", "/api/v1/pubd/delete", Some("pub-admin"), false, Some("delete_criteria"), true),
     r("POST", "/api/v1/pubd/init", Some("pub-admin"), false, Some("pubd_init"), true),
     r("DELETE", "/api/v1/pubd/init", Some("pub-admin"), false, None, true),
-    r("GET", "/api/v1/pubd/publishers", Some("pub-admin"), false, None, false),
-    r("POST", "/api/v1/pubd/publishers", Some("pub-admin"), false, Some("publisher_request"), true),
-    r("GET", "/api/v1/pubd/publishers/{publisher}", Some("pub-admin"), false, None, false),
-    r("DELETE", "/api/v1/pubd/publishers/{publisher}", Some("pub-admin"), false, None, true),
-    r("GET", "/api/v1/pubd/publishers/{publisher}/response.json", Some("pub-admin"), false, None, false),
-    r("GET", "/api/v1/pubd/publishers/{publisher}/response.xml", Some("pub-admin"), false, None, false),
+    r("GET", "/api/v1/pubd/publishers", Some("pub-list"), false, None, false),
+    r("POST", "/api/v1/pubd/publishers", Some("pub-create"), false, Some("publisher_request"), true),
+    r("GET", "/api/v1/pubd/publishers/{publisher}", Some("pub-read"), false, None, false),
+    r("DELETE", "/api/v1/pubd/publishers/{publisher}", Some("pub-delete"), false, None, true),
+    r("GET", "/api/v1/pubd/publishers/{publisher}/response.json", Some("pub-read"), false, None, false),
+    r("GET", "/api/v1/pubd/publishers/{publisher}/response.xml", Some("pub-read"), false, None, false),
     r("POST", "/api/v1/pubd/session_reset", Some("pub-admin"), false, None, true),
-    r("GET", "/api/v1/pubd/stale/{n}", Some("pub-admin"), false, None, false),
+    r("GET", "/api/v1/pubd/stale/{n}", Some("pub-list"), false, None, false),
     // trust anchor proxy
     r("GET", "/api/v1/ta/proxy/children", Some("ca-admin"), false, None, false),
     r("POST", "/api/v1/ta/proxy/children", Some("ca-admin"), false, Some("child_add"), true),
@@ -147,3 +147,31 @@ pub fn fill(path: &str, ca: &str, child: &str, parent: &str, customer: &str, pub
         .replace("{publisher}", publisher)
         .replace("{n}", n)
 }
+
+/// All permissions a caller needs for a route, with whether each is evaluated
+/// for the CA in the path: the login gate of the versioned API, the gate of
+/// the sub-tree (ca-read for /cas/{ca}/..., pub-admin for /pubd/...), and the
+/// operation's own permission.
+pub fn required(route: &Route) -> Vec<(&'static str, bool)> {
+    let mut v: Vec<(&'static str, bool)> = Vec::new();
+    let Some(perm) = route.perm else { return v };
+    if route.path.starts_with("/api/v1/") && route.path != "/api/v1/authorized" {
+        v.push(("login", false));
+    }
+    if route.path.starts_with("/api/v1/cas/{ca}") {
+        v.push(("ca-read", true));
+    }
+    if route.path.starts_with("/api/v1/pubd") {
+        v.push(("pub-admin", false));
+    }
+    if !v.iter().any(|(p, _)| *p == perm) {
+        v.push((perm, route.ca_scoped));
+    }
+    v
+}
+
+pub const ALL_PERMISSIONS: &[&str] = &[
+    "login", "pub-admin", "pub-list", "pub-read", "pub-create", "pub-delete", "ca-list", "ca-read", "ca-create", "ca-update", "ca-admin",
+    "ca-delete", "routes-read", "routes-update", "routes-analysis", "aspas-read", "aspas-update", "bgpsec-read", "bgpsec-update", "rta-list",
+    "rta-read", "rta-update",
+];
